@@ -153,10 +153,17 @@ def step (_ : Unit) (ts : List String) : Unit × String :=
           let cfp := if so == C02.cfpOpt then (if su == C02.cfpUnopt then " cfp-tie=ok" else " cfp-tie=differs") else ""
           -- tie of `opt_equiv`: inside the proved fragment the two REAL statements must be the model pair's statements (and parameterless)
           let frag := match q with
-            | some cq => match C02.trOpt km cq, C02.trUnopt km cq with
-              | some (mo, _), some (mu, _) => if so == mo && su == mu then " frag-tie=ok" else
-                  (if so == mo then " frag-tie=differs:unoptimised" else " frag-tie=differs:optimised")
-              | _, _ => ""
+            | some cq =>
+              -- either join order of a hop is a statement of the model (`trVariant` takes the direction choice as a parameter)
+              let cands := fun (fast : Bool) => [C02.trVariant (fun _ => false) fast km cq, C02.trVariant (fun _ => true) fast km cq].filterMap id
+              match cands true, cands false with
+              | [], _ => ""
+              | _, [] => ""
+              | co, cu =>
+                let okO := co.any (fun c => c.1 == so)
+                let okU := cu.any (fun c => c.1 == su)
+                if okO && okU then (if so == su then " frag-tie=ok:same-statement" else " frag-tie=ok:statements-differ")
+                else if okO then " frag-tie=differs:unoptimised" else " frag-tie=differs:optimised"
             | none => ""
           let cfp := cfp ++ frag
           let counts := s!"graphs={graphs.length} sql-agree={countBy sqlRes isAgree} sql-bag-only={countBy sqlRes isBag} sql-unmodelled={countBy sqlRes isUn} cy-compared={cyRes.length} cy-agree={countBy cyRes isAgree} cy-unmodelled={countBy cyRes isUn}{cfp}"
